@@ -34,6 +34,7 @@ var c16Bait = []string{
 	"x=a==null?undefined:a.b", "x=a!=null?a[0]:void 0", "x=a===null||a===undefined?undefined:a()", "x=a==null?b:a",
 	"x=a===undefined||a===null?b:a", "x=a!==null&&a!==undefined?a:b", "x=a==null?void 0:a.b.c(d)", "x=a!=null?a:b()",
 	"x=(a===null||a===void 0)?void 0:a[b]", "var v;x=v==null?undefined:v.p", "x=a==null?undefined:a`t`",
+	"function f(x){try{g()}catch(e){return x}}h(f(1))", "function f(a,b){try{g(a)}catch(t){return a+b}return b}h(f(1,2))",
 	"try{f()}catch(e){}", "try{f()}catch(e){g()}", "try{f()}catch(e){g(e)}", "try{f()}catch(e){}finally{h()}", "try{f()}catch({message}){}",
 	"x=\"a\\nb\"", "x='\"\\''", "x=\"a\"+b+\"c\"", "x='it\\'s \"q\"'", "x=\"line1\\nline2\\nline3\\n\"", "x='\\n\\n\\n\\n'", "x=\"${a}\"",
 	"x=Math.pow(a,2)", "x=a*a", "var o={a:a,b:b}", "var o={f:function(){}}", "var o={f:function(){return this}}",
@@ -65,15 +66,31 @@ func c16JSVersion(run *core.Run) {
 	for _, c := range frozenCorpus("js") {
 		progs = append(progs, c)
 	}
-	nGen := run.N(300, 6000)
+	nGen := run.N(1500, 8000)
 	for i := 0; i < nGen; i++ {
 		r := run.CaseRand("c16js", i, nGen/2)
 		src, _ := genJSProgram(r)
 		progs = append(progs, src)
 	}
 	run.Set("js_programs", len(progs))
+	firstGenerated := len(progs) - nGen
 	core.ParallelFor(len(progs), 0, func(i int) {
 		src := progs[i]
+		if i >= firstGenerated || i < len(c16Bait) {
+			// generated closed programs: the behaviour must also survive one target version below each gate
+			// (C01's execution monitor, here under the option this property is about)
+			ver := []int{2015, 2018, 2019, 2016}[i%4]
+			c := jsConfig{Version: ver}
+			if v := jsJudge(src, c); v.Verdict != "" && v.Verdict != "REJECTED" && !strings.HasPrefix(v.Verdict, "INCONCLUSIVE") {
+				key := core.Key(c.String(), []byte(src))
+				if run.IsKnown(core.Key("*", []byte(src))) {
+					key = core.Key("*", []byte(src))
+				}
+				run.Violation(key, fmt.Sprintf("%s: %s | in=%s | out=%s", c, v.Verdict, core.Trunc(src, 300), core.Trunc(v.Out, 300)), map[string]string{"config": c.String(), "input": src, "output": v.Out})
+			} else if v.Verdict == "" {
+				run.Count("js_behaviour_compared_under_version")
+			}
+		}
 		inV, err := jsMinVer(src)
 		if err != nil {
 			run.Inconclusive()
@@ -596,7 +613,20 @@ func c16CLI(run *core.Run) {
 		return
 	}
 	sorted := append([]c16Flag{}, c16Flags...)
-	sort.Slice(sorted, func(i, j int) bool { return sorted[i].flag < sorted[j].flag })
+	for _, f := range c16Flags {
+		// the template dialects share the HTML options
+		if f.typ == "html" {
+			for _, t := range []string{"php", "asp", "tmpl", "mustache", "handlebars", "ejs", "gohtml"} {
+				sorted = append(sorted, c16Flag{f.flag, t, f.probe})
+			}
+		}
+	}
+	sort.Slice(sorted, func(i, j int) bool {
+		if sorted[i].flag != sorted[j].flag {
+			return sorted[i].flag < sorted[j].flag
+		}
+		return sorted[i].typ < sorted[j].typ
+	})
 	for _, f := range sorted {
 		run1 := func(flags ...string) ([]byte, error) {
 			cmd := exec.Command(bin, append([]string{"--type=" + f.typ}, flags...)...)
@@ -630,13 +660,13 @@ func c16CLI(run *core.Run) {
 		want, wantDef := lib([]string{f.flag}), lib(nil)
 		if bytes.Equal(want, wantDef) {
 			run.Inconclusive() // the probe does not distinguish the option: it decides nothing
-			run.Count("cli_flag_probe_insensitive:" + f.flag)
+			run.Count("cli_flag_probe_insensitive:" + f.flag + ":" + f.typ)
 			continue
 		}
 		run.Count("cli_flags_checked")
-		run.NonTrivial([]byte(f.flag), []byte(f.probe))
+		run.NonTrivial([]byte(f.flag), []byte(f.typ), []byte(f.probe))
 		if !bytes.Equal(got, want) || !bytes.Equal(def, wantDef) {
-			cfg := "cli " + f.flag
+			cfg := "cli --type=" + f.typ + " " + f.flag
 			run.Violation(core.Key(cfg, []byte(f.probe)), fmt.Sprintf("%s: command printed %q (default %q), the library with the option gives %q (default %q)", cfg, got, def, want, wantDef), map[string]string{"config": cfg, "input": f.probe, "output": string(got)})
 		}
 	}
